@@ -148,6 +148,17 @@ Proof.
   unfold sess_step. rewrite Qc. reflexivity.
 Qed.
 
+(* every way the read handler can end the receive loop - an error, a panic with any value including nil, Goexit -
+   arms the same cause, so at quiescence the session is over (instance of both_loops_stop) *)
+Theorem handler_end_kinds m c0 t i s k t' s' : reachable m c0 t -> nth_error (ss t) i = Some s -> started s = true ->
+  step t (On i (RecvFault k)) = Some t' -> nth_error (ss t') i = Some s' -> must_end s' = true.
+Proof.
+  intros R En St H En'. cbn [step] in H. rewrite En, St in H. cbn [sess_step] in H.
+  destruct (match k with RErr | RTimeout => true | _ => peer_open s end); [|discriminate].
+  inversion H; subst t'; clear H. cbn [ss] in En'.
+  rewrite nth_upd_same in En' by (apply nth_error_Some; congruence). inversion En'; subst s'. reflexivity.
+Qed.
+
 (* ---- non-vacuity ---- *)
 Example demo_flush : exists t s, run (init 0 0)
     [Start 0 Pipe true; On 0 (Send [1;2] true); On 0 (Send [3] true); On 0 LocalClose; On 0 SendStep; On 0 SendStep; On 0 SendStep; On 0 RecvEnd] = Some t
